@@ -155,8 +155,9 @@ class DeserializationVisitor(ConversionsVisitor[Deserialization, Result]):
                         continue
                     identity_conv = True
                     conv = ResolvedConversion(replace(conv, sub_conversion=identity))
-                if is_type_var(conv.source) or any(
-                    map(is_type_var, get_args2(conv.source))
+                if is_type_var(conv.source) or (
+                    get_args2(conv.source)
+                    and getattr(conv.source, "__parameters__", ())
                 ):
                     _, substitution = subtyping_substitution(tp, conv.target)
                     conv = replace(
@@ -197,8 +198,9 @@ class SerializationVisitor(ConversionsVisitor[Serialization, Result]):
             if is_subclass(tp, conv.source):
                 if is_identity(conv):
                     return True, None
-                if is_type_var(conv.target) or any(
-                    map(is_type_var, get_args2(conv.target))
+                if is_type_var(conv.target) or (
+                    get_args2(conv.target)
+                    and getattr(conv.target, "__parameters__", ())
                 ):
                     substitution, _ = subtyping_substitution(conv.source, tp)
                     conv = replace(
